@@ -105,17 +105,45 @@ type tracer struct {
 	frames   []frameGas
 	pending  map[int]*pend
 	innerMax int
+	jumps    map[int]*jumpPend // per depth: the JUMP / taken JUMPI announced by the previous step
 	findings []finding
 	stats    map[string]int
 }
 
 func newTracer(am *account.Manager, supplied uint64, budget int) *tracer {
-	return &tracer{am: am, supplied: supplied, budget: budget, pending: map[int]*pend{}, innerMax: innerCheckDepth, stats: map[string]int{}}
+	return &tracer{am: am, supplied: supplied, budget: budget, pending: map[int]*pend{}, jumps: map[int]*jumpPend{}, innerMax: innerCheckDepth, stats: map[string]int{}}
 }
 
 // innerCheckDepth bounds the frames whose nested calls are snapshot-checked (frame 1 is the
 // transaction-level one): the snapshots cost time linear in the journal.
 var innerCheckDepth = 4
+
+// jumpPend is a jump the interpreter is about to perform (seen by CaptureState before the
+// operation runs): which code, and where to.
+type jumpPend struct {
+	c    *vm.Contract
+	dest *big.Int
+}
+
+// validDest is the reference answer: dest is inside the code, holds JUMPDEST (0x5b) and is not data
+// of a PUSH. It depends on the code alone — that is the point: where a program may jump must not
+// depend on what ran before it (determinism clause), e.g. through a jump-analysis cache filed under
+// the wrong key.
+func validDest(code []byte, dest *big.Int) bool {
+	if !dest.IsUint64() || dest.Uint64() >= uint64(len(code)) {
+		return false
+	}
+	d := int(dest.Uint64())
+	for pc := 0; pc < len(code); pc++ {
+		if pc == d {
+			return code[pc] == 0x5b
+		}
+		if code[pc] >= 0x60 && code[pc] <= 0x7f {
+			pc += int(code[pc]) - 0x5f
+		}
+	}
+	return false
+}
 
 func isCallOp(op vm.OpCode) bool {
 	return op == vm.CALL || op == vm.CALLCODE || op == vm.DELEGATECALL || op == vm.STATICCALL || op == vm.CREATE
@@ -130,6 +158,12 @@ func (t *tracer) CaptureEnd(output []byte, gasUsed uint64, d time.Duration, err 
 
 func (t *tracer) CaptureFault(env *vm.EVM, pc uint64, op vm.OpCode, gas, cost uint64, memory *vm.Memory, stack *vm.Stack, contract *vm.Contract, depth int, err error) error {
 	delete(t.pending, depth)
+	if jp := t.jumps[depth]; jp != nil {
+		delete(t.jumps, depth)
+		if jp.c == contract && (op == vm.JUMP || op == vm.JUMPI) && err != nil && strings.Contains(err.Error(), "invalid jump destination") && validDest(contract.Code, jp.dest) {
+			t.findings = append(t.findings, finding{class: "jump", sub: "valid-destination-refused", what: fmt.Sprintf("%v at pc %d (depth %d) to %v is refused although that position of the running code %x is a JUMPDEST outside push data", op, pc, depth, jp.dest, contract.Code)})
+		}
+	}
 	return nil
 }
 
@@ -144,6 +178,22 @@ func (t *tracer) CaptureState(env *vm.EVM, pc uint64, op vm.OpCode, gas, cost ui
 	}
 	if depth > t.maxDepth {
 		t.maxDepth = depth
+	}
+	// control flow: a jump that was performed went to a JUMPDEST of the running code outside push data
+	if jp := t.jumps[depth]; jp != nil {
+		delete(t.jumps, depth)
+		if jp.c == contract && jp.dest.IsUint64() && jp.dest.Uint64() == pc && !validDest(contract.Code, jp.dest) {
+			t.findings = append(t.findings, finding{class: "jump", sub: "executed-to-non-jumpdest", what: fmt.Sprintf("the frame at depth %d jumped to pc %d of its code %x, which is not a JUMPDEST outside push data (reference analysis of the code alone)", depth, pc, contract.Code)})
+		}
+	}
+	for d := range t.jumps {
+		if d > depth {
+			delete(t.jumps, d)
+		}
+	}
+	if st := stack.Data(); (op == vm.JUMP && len(st) >= 1) || (op == vm.JUMPI && len(st) >= 2 && st[len(st)-2].Sign() != 0) {
+		t.jumps[depth] = &jumpPend{contract, new(big.Int).Set(st[len(st)-1])}
+		t.stats["jumps_observed"]++
 	}
 	// gas never grows inside a frame, and a frame starts with no more than its parent had (+ stipend)
 	if depth < len(t.frames) && t.frames[depth].c == contract {
